@@ -78,6 +78,7 @@ type Engine struct {
 	events      []Event
 	notes       map[string]bool
 	nchan       int
+	dialConn    Iface
 	lastPanicPos string
 	narr        int
 
